@@ -354,6 +354,11 @@ theorem insert_by_position_keeps_every_character (el : Toks) (he : rawAll el = [
     (h : insertPos el p ts 0 = some ts') : rawAll ts' = rawAll ts :=
   rawAll_insertPos el he p ts 0 ts' h
 
+/-- so is the insertion before / after a match, for every matcher -/
+theorem insert_by_regex_keeps_every_character (el : Toks) (he : rawAll el = []) (before : Bool) (position : Int)
+    (spans : List (List (Nat × Nat))) (ts ts' : Toks) (h : insertRe el before position spans ts = some ts') : rawAll ts' = rawAll ts :=
+  rawAll_insertRe el he before position spans ts ts' h
+
 /-! non-vacuity: `abc def<end/> ghi`, the end (kind 9, label 5) moved to position 2: one end tag, at the new place, tail merged back -/
 example :
     moveEnd 9 5 99 (fun ts => insertPos [.op 9 99 false, .cl] 2 ts 0)
